@@ -77,6 +77,35 @@ fn selftest(thorough: bool) -> Result<(), String> {
     Ok(())
 }
 
+/// runs a case and applies the oracles (for C19 cases also the fresh-engine baseline comparison)
+fn evaluate(case: &Case) -> (Outcome, oracle::Analysis, Option<String>) {
+    let out = exec::run_case(case);
+    let mut an = oracle::analyse(case, &out);
+    let mut c19sig = None;
+    if case.prop == "C19" {
+        if let Some(b) = workload::c19_baseline(case) {
+            let bout = exec::run_case(&b);
+            let ban = oracle::analyse(&b, &bout);
+            let bt = oracle::last_search_transcript(&b, &bout, &ban);
+            let gt = oracle::last_search_transcript(case, &out, &an);
+            if let Some(t) = &bt {
+                let mut h = 0xcbf29ce484222325u64;
+                for l in t {
+                    for by in l.bytes() {
+                        h ^= by as u64;
+                        h = h.wrapping_mul(0x100000001b3);
+                    }
+                    h ^= 10;
+                    h = h.wrapping_mul(0x100000001b3);
+                }
+                c19sig = Some(format!("{:016x}", h));
+            }
+            oracle::compare_c19(&mut an, case, bt, gt);
+        }
+    }
+    (out, an, c19sig)
+}
+
 /// one summary line per run (JSON)
 fn summarise(case: &Case, out: &Outcome, an: &oracle::Analysis, prop: &str) -> Value {
     let mine: Vec<&oracle::Viol> = an.viols.iter().filter(|v| v.prop == prop).collect();
@@ -109,6 +138,9 @@ fn summarise(case: &Case, out: &Outcome, an: &oracle::Analysis, prop: &str) -> V
         "sig": format!("{:016x}", out.sig),
         "log": format!("{:016x}", out.log_hash),
         "nontrivial": nontrivial,
+        "evals": if case.mode == case::Mode::Direct { an.accepted_gos.max(1) } else { 1 },
+        "stops": an.stops_observed,
+        "distinct_keys": an.distinct_keys.iter().map(|k| format!("{:016x}|{}", case.workload_hash(), k)).collect::<Vec<_>>(),
         "decisions": out.decisions.len(),
     })
 }
@@ -152,9 +184,12 @@ fn main() {
                 let seed = base + i;
                 let case = workload::gen(&prop, seed, thorough);
                 std::println!("BEGIN {}", seed);
-                let out = exec::run_case(&case);
-                let an = oracle::analyse(&case, &out);
-                let s = summarise(&case, &out, &an, &prop);
+                let (out, an, c19sig) = evaluate(&case);
+                let mut s = summarise(&case, &out, &an, &prop);
+                if let Some(sig) = c19sig {
+                    s["c19sig"] = json!(sig);
+                    s["c19item"] = json!(case.tags.iter().find_map(|t| t.strip_prefix("c19item=")).unwrap_or(""));
+                }
                 if an.viols.iter().any(|v| v.prop == prop) {
                     if let Some(d) = &dump {
                         // keep the failing case with the decisions and faults that were actually taken
@@ -174,8 +209,7 @@ fn main() {
             let text = std::fs::read_to_string(path).expect("read case file");
             let v: Value = serde_json::from_str(&text).expect("case file is not JSON");
             let case = Case::from_json(v.get("case").unwrap_or(&v)).expect("malformed case");
-            let out = exec::run_case(&case);
-            let an = oracle::analyse(&case, &out);
+            let (out, an, _) = evaluate(&case);
             if !args.iter().any(|a| a == "--quiet") {
                 std::print!("{}", trace(&out));
             }
